@@ -6,6 +6,8 @@
 //! child process of its own and its result must equal the result of the same operation in the (warm) parent, whose
 //! values the property's main enumeration has compared with the reference model. This is a differential oracle with no
 //! hand-written expected value; all operations are deterministic (randomness goes through the scripted RNG seam).
+//! The warm value is computed on a fresh thread after a warm-up pass on another thread, so per-thread state plays no
+//! part here (that is what the chunked driver's recorded prefixes are for) and a replay in a fresh process reproduces.
 use crate::alpha::{ANNEX_D, ANNEX_K};
 use crate::engine::*;
 use crate::sm2api;
@@ -307,9 +309,22 @@ fn eval(ctx: &Ctx, name: &str) {
     };
     ctx.state();
     ctx.call();
-    let warm = match guard(f) {
-        Guard::Done(s) => format!("RESULT {}", s),
-        Guard::Panic(p) => format!("PANIC {}", p),
+    // "warm" = process-global state initialised, per-thread state clean: first every operation of this property once on
+    // a scratch thread (whatever they initialise process-wide is then initialised - also when this is a replay in a
+    // fresh process), then the operation itself on another fresh thread. Per-thread state is the business of the
+    // chunked driver, not of this comparison.
+    let prop = name.split('/').next().unwrap_or("").to_string();
+    let warmup: Vec<fn() -> String> = ops().into_iter().filter(|(n, _)| n.starts_with(&prop) && n.as_bytes().get(prop.len()) == Some(&b'/')).map(|(_, g)| g).collect();
+    let _ = std::thread::spawn(move || {
+        for g in warmup {
+            let _ = guard(g);
+        }
+    })
+    .join();
+    let warm = match std::thread::spawn(move || guard(f)).join() {
+        Ok(Guard::Done(s)) => format!("RESULT {}", s),
+        Ok(Guard::Panic(p)) => format!("PANIC {}", p),
+        Err(_) => "PANIC outside the guarded call".to_string(),
     };
     ctx.trace();
     let cj = json!({"Cold": {"op": name}});
